@@ -307,6 +307,9 @@ def run(model, tier="quick"):
     from . import C19 as _C19
     effects_check(res, model, "Broker.add_market", _C19.REF_ADD_MARKET,
                   "add_market rebinds the market's broker and action callback unconditionally", [], keep_raise_effects=True)
+    # the account history's price columns come from this table
+    from .price_refs import price_table
+    price_table(res, model)
     from ..rules.fresh import fresh_rule
     if "R-FRESH" not in res.rules:
         res.rules.append("R-FRESH")
